@@ -10,7 +10,7 @@ THEOREMS = ["Genql.C14." + t for t in [
     "spinasync_no_column", "invoked_at_most_once", "once_single_invocation", "immediate_rejects", "wait_before_post",
     "async_no_deadlock", "asyncShape_iff", "asyncShape_protocol", "model_has_shape", "nested_wait_forwarded"]] + \
     ["Genql.Obligations.C14." + t for t in ["async_shape", "spinasync_shape", "spin_not_waited", "nested_wait_forwarded_sites",
-                                            "immediate_table", "async_protocol", "spinasync_protocol"]]
+                                            "immediate_table", "async_protocol", "spinasync_protocol", "unwind_done_last"]]
 TRUSTED = ["sync.WaitGroup and goroutine semantics as modelled (Add/Done/Wait counter, Wait enabled at 0)",
            "the go/ast extraction of the event order of FunExpr / execAndPostProcess",
            "real goroutine schedules are explored (latency injection), not enumerated"]
@@ -26,7 +26,10 @@ QUAL = {"plain": "", "async": "async", "spin": "spin", "spinasync": "spinasync",
 
 def gen_case(rnd, idx=0):
     n = rnd.randint(0, 20) if rnd.random() < 0.3 else rnd.randint(0, 6)
-    rows = [{"a": i + 1, "b": 100 + rnd.randint(0, 5)} for i in range(n)]
+    # `z`: falsy results (NULL, 0) — a memo / slot must be told apart from "not computed yet" by presence, not by value
+    zmode = rnd.choice(["null", "zero", "mixed"])
+    rows = [{"a": i + 1, "b": 100 + rnd.randint(0, 5),
+             "z": None if zmode == "null" else (0 if zmode == "zero" else rnd.choice([None, 0, 7]))} for i in range(n)]
     k = rnd.randint(1, 5)
     items = [rnd.choice(STRATS) for _ in range(k)]
     # ONCE is keyed by function name in the engine: at most one ONCE item per query in this harness
@@ -38,7 +41,7 @@ def gen_case(rnd, idx=0):
             seen_once = True
     sel, argcols = [], []
     for i, s in enumerate(items):
-        c = rnd.choice(["a", "b"])
+        c = rnd.choice(["a", "b", "a", "b", "z"])
         argcols.append(c)
         call = ["func", QUAL[s], "vf_slow", [["str", "q%d_t%d" % (idx, i)], col(c)]]
         sel.append(["item", call, "v%d" % i, "v%d" % i])
@@ -46,6 +49,9 @@ def gen_case(rnd, idx=0):
     lat = rnd.choice([[0], [0], [rnd.randint(0, 300) for _ in range(7)], [0, 0, 0, 2000], [500, 0]])
     q = select(sel, table("t"))
     return {"doc": {"t": rows}, "q": q, "items": items, "argcols": argcols, "lat": lat, "sql": query_sql(q), "idx": idx}
+
+
+NULL_CODE = -999   # NULL arguments / results in the integer-valued protocol model
 
 
 def schedule(rnd, total):
@@ -72,7 +78,8 @@ def explore(chk, rnd, tier):
         args = []
         for r in rows:
             for i in range(k):
-                args.append(r[c["argcols"][i]])
+                v = r[c["argcols"][i]]
+                args.append(NULL_CODE if v is None else v)
         lreqs.append({"op": "async", "rows": len(rows), "items": [[s, 0] for s in c["items"]], "imm": [False],
                       "args": args, "sched": schedule(rnd, len(rows) * k)})
     leans = run_lean(lreqs)
@@ -106,8 +113,9 @@ def explore(chk, rnd, tier):
                 elif cell == "ptr":
                     bad = "model left a pointer"
                 else:
-                    if key not in o or o[key] != float(cell):
-                        bad = "row %d column %s: impl %r, model %r" % (ri, key, o.get(key), cell)
+                    want_v = None if cell == NULL_CODE else float(cell)
+                    if key not in o or o[key] != want_v:
+                        bad = "row %d column %s: impl %r, model %r" % (ri, key, o.get(key), want_v)
             if o.get("a") != float(row["a"]):
                 bad = "plain column disturbed"
         # invocation counts, and completion of everything that is waited for
@@ -120,7 +128,8 @@ def explore(chk, rnd, tier):
                     bad = "SPIN invoked more than once per row"
             elif have != want:
                 bad = "%s %s: %d completed invocations when Exec returned, model says %d" % (s, tag, have, want)
-            if s in ("plain", "async", "spinasync") and sorted(per_tag.get(tag, [])) != sorted(float(r[c["argcols"][i]]) for r in rows):
+            if s in ("plain", "async", "spinasync") and sorted(map(canon, per_tag.get(tag, []))) != \
+                    sorted(canon(dec_val(enc_val(r[c["argcols"][i]]))) for r in rows):
                 bad = "%s %s: invocation arguments differ from one call per row" % (s, tag)
         if bad:
             chk.add_violation("strategy-changes-result", {"sql": c["sql"], "doc": c["doc"], "latency": c["lat"], "detail": bad,
@@ -155,7 +164,7 @@ def explore(chk, rnd, tier):
             rows = [{"id": r, "items": [{"x": 10 * r + j} for j in range(rnd.randint(0, 3))]} for r in range(rnd.randint(1, 4))]
             qual = rnd.choice(["SPINASYNC", "ASYNC", "SPINASYNC", ""])
             tag = "n%d" % i
-            shape = rnd.choice(["subq", "derived", "exists", "subq-in-where"])
+            shape = rnd.choice(["subq", "derived", "exists", "subq-in-where", "derived-join", "nested-from", "union", "cte"])
             call = "%sVF_SLOW('%s', x)" % (qual + "." if qual else "", tag)
             col_ = call + (" AS v" if qual in ("ASYNC", "") else "")
             if shape == "subq":
@@ -170,10 +179,25 @@ def explore(chk, rnd, tier):
                     col_ = call
                 sql = "SELECT id FROM t WHERE EXISTS (SELECT x, %s FROM items WHERE x >= 0)" % col_
                 expect = sorted(float(it["x"]) for r in rows for it in r["items"])
+            elif shape == "derived-join":
+                # the derived table is one side of a join (built on a copy of the query)
+                sql = "SELECT * FROM (SELECT id, %s FROM t) AS d %s t e ON d.id = e.id" % (
+                    col_.replace("x)", "id)"), rnd.choice(["JOIN", "LEFT JOIN", "PARALLEL JOIN"]))
+                expect = sorted(float(r["id"]) for r in rows)
+            elif shape == "nested-from":
+                # array of arrays: every inner array is run on a copy of the query
+                sql = "SELECT x, %s FROM g" % col_
+                expect = sorted(float(it["x"]) for r in rows for it in r["items"])
+            elif shape == "union":
+                sql = "SELECT id, %s FROM t UNION ALL SELECT id, %s FROM t" % (col_.replace("x)", "id)"), col_.replace("x)", "id)"))
+                expect = sorted([float(r["id"]) for r in rows] * 2)
+            elif shape == "cte":
+                sql = "WITH c AS (SELECT id, %s FROM t) SELECT * FROM c" % col_.replace("x)", "id)")
+                expect = sorted(float(r["id"]) for r in rows)
             else:
                 sql = "SELECT id FROM t WHERE id IN (SELECT id, %s FROM `<-t`)" % col_.replace("x)", "id)")
                 expect = sorted(float(r2["id"]) for r in rows for r2 in rows)
-            ncases.append({"sql": sql, "doc": {"t": rows}, "tag": tag, "expect": expect, "qual": qual, "shape": shape,
+            ncases.append({"sql": sql, "doc": {"t": rows, "g": [r["items"] for r in rows]}, "tag": tag, "expect": expect, "qual": qual, "shape": shape,
                            "lat": rnd.choice([[0], [300], [0, 1500], [800, 0, 0]])})
         outs = run_go([{"op": "query", "doc": enc_val(c["doc"]), "sql": c["sql"], "latency": c["lat"]} for c in ncases], timeout=900)
         for c, o in zip(ncases, outs):
@@ -186,6 +210,9 @@ def explore(chk, rnd, tier):
                 chk.add_violation("nested-calls-not-complete-at-return", {
                     "sql": c["sql"], "doc": c["doc"], "latency_us": c["lat"], "completed_invocations": got, "expected": c["expect"],
                     "detail": "a qualified call inside a nested query had not run to completion exactly once per row when Exec returned"})
+                break
+            if o.get("nonPlain"):
+                chk.add_violation("nested-async-slot-unresolved", {"sql": c["sql"], "doc": c["doc"], "impl": o})
                 break
             if c["qual"] == "ASYNC" and c["shape"] == "subq":
                 rows = dec_val(o["v"])
